@@ -175,6 +175,8 @@ class Executor(ExprMixin, ContainerMixin, CallMixin, StmtMixin, ObjectMixin):
         for k, combo in enumerate(itertools.product(*alts)):
             if self.only_variant is not None and k != self.only_variant:
                 continue
+            if c.assumed_variants is not None and c.assumed_variants(dict(combo)):
+                continue  # this parameter-type variant of the contract is assumed, not verified (listed in the evidence)
             self.variant = self.family + ":" + ",".join(t for n, t in combo if len(c.params[n]) > 1)
             self.loop_counter = 0
             self.run_variant(dict(combo))
